@@ -4,7 +4,7 @@
    The two comparisons in send_data are the functions g_send_data_flow / g_send_data_frame extracted from
    /repo's connection.py on this run (Gen/Guards.v). *)
 From H2 Require Import Base.Prelude Base.PyDict Gen.Consts Gen.Guards Model.Types Model.Stream Model.ConnState
-  Model.Connection Proofs.C03Proofs.
+  Model.Connection Model.Windows Proofs.C03Proofs Proofs.C03Delta.
 
 (* every history: the connection-level send window never goes negative, i.e. the flow-controlled
    total of all DATA emitted never exceeds 65535 plus the WINDOW_UPDATE(0) increments accepted *)
@@ -46,6 +46,19 @@ Theorem C03_received_frame_effect_on_connection_window :
     (exists sid inc, f = RWindowUpdate sid inc /\ c_out_win c' = c_out_win c + inc /\ c_out_win c + inc <= 2147483647).
 Proof. exact dispatch_out_win. Qed.
 
+(* a change of the peer's INITIAL_WINDOW_SIZE (old -> new) that succeeds is added to the send window of
+   EVERY stream in the table, whatever its state (reserved and closed-not-yet-reaped ones included): same
+   ids in the same order, each window moved by exactly new - old (possibly below zero, RFC 7540 6.9.2), none
+   above 2^31-1, and nothing but the stream table changes *)
+Theorem C03_initial_window_size_delta_reaches_every_stream :
+  forall old new c c', flow_control_change_from_settings old new c = (c', Ok tt) ->
+    c' = cset_streams c (c_streams c') /\
+    map fst (c_streams c') = map fst (c_streams c) /\
+    forall sid s, dget sid (c_streams c) = Some s ->
+      dget sid (c_streams c') = Some (set_out_win s (s_out_win s + (new - old))) /\
+      s_out_win s + (new - old) <= LARGEST_FLOW_CONTROL_WINDOW.
+Proof. exact iws_delta_reaches_every_stream. Qed.
+
 (* non-vacuity: a client that opened stream 1 can send exactly its window *)
 Definition ex_cfg := mkconfig true true true true true false.
 Definition ex_req : list hitem :=
@@ -59,9 +72,25 @@ Example C03_ex_exact_window :
   snd (step c (OSendData 1 65536 false None)) = Err FlowControlError 3 0 false.
 Proof. vm_compute. repeat split. Qed.
 
+(* non-vacuity of the delta theorem on a stream that is not open: a server reserves stream 2 by a push, the
+   peer lowers INITIAL_WINDOW_SIZE to 100, the pushed stream is then activated: its window is 100, 100 bytes go
+   out and 101 are refused *)
+Definition ex_cfgs := mkconfig false true true true true false.
+Definition ex_resp : list hitem := [([58;115;116;97;116;117;115],[50;48;48],false)].
+Example C03_ex_reserved_stream_follows_the_delta :
+  let c := run (conn_new ex_cfgs)
+             [OInitiate; OReceive [(RSettings false [], 0); (RHeaders 1 false None (HDecoded ex_req), 10)];
+              OPushStream 1 2 ex_req 10; OReceive [(RSettings false [(4, 100)], 6)];
+              OSendHeaders 2 ex_resp 1 false None None None] in
+  snd (step c (OLocalWindow 2)) = Ok (AZ 100) /\
+  snd (step c (OSendData 2 100 false None)) = Ok ANone /\
+  snd (step c (OSendData 2 101 false None)) = Err FlowControlError 3 0 false.
+Proof. vm_compute. repeat split. Qed.
+
 Print Assumptions C03_connection_window_never_negative.
 Print Assumptions C03_emitted_data_fits_both_windows.
 Print Assumptions C03_local_window_is_the_minimum.
 Print Assumptions C03_one_byte_more_is_refused_and_changes_nothing.
 Print Assumptions C03_send_data_effect_on_connection_window.
 Print Assumptions C03_received_frame_effect_on_connection_window.
+Print Assumptions C03_initial_window_size_delta_reaches_every_stream.
